@@ -46,6 +46,8 @@ type engine struct {
 	workers            int
 	parallelHarness    int
 	evdir              string
+	dbOnce             sync.Once
+	dbFields           map[string]int
 	loadSeconds        float64
 	fnTotals           map[string]int64
 	fnMu               sync.Mutex
